@@ -29,8 +29,8 @@ def gen(rng, tier):
         hexbm = (i // len(iu.CODECS)) % 2 == 1
         if i % 3 == 2:
             dec = i % 15 == 14
-            # (one generated configuration in five also has decimal typed elements: outside the message-level theorem's
-            # domain wf_cfgb; the model carries a decimal by its text - model/Dec.v, C01_decimal_element - and is compared too)
+            # (one generated configuration in five also has decimal typed elements: inside the theorem's domain too - the
+            # model carries a decimal by its text, model/Dec.v, props/C01dec.v)
             cfg = iu.gen_config(rng, allbits=(i % 9 == 8), modelled_only=True, decimals=dec)   # otherwise the theorem's domain: wf_cfgb
             m = iu.rand_message(rng, cfg, codec)
             # (`global`: the caller has REPLACED the packaged configuration - cardutil.config.config['bit_config'] = ... after
@@ -107,7 +107,7 @@ def judge(case, io_, mo):
     if extra and not ps:
         ps.append({'kind': 'oracle', 'sig': 'undocumented-extra-key', 'msg': 'extra keys %s' % extra[:3]})
     if mo is not None and not ps:
-        if mo[1] != 'OK 111' and not case.get('dec'):
+        if mo[1] != 'OK 111':
             # generator and theorem domain disagree: the case is outside wf_cfgb / codec_okb / wf_msgb
             ps.append({'kind': 'corr', 'sig': 'domain', 'msg': 'generated message is not in the theorem domain (wf_cfg, codec_ok, wf_msg) = %s' % mo[1]})
             return ps
